@@ -192,10 +192,17 @@ class DSDLDefinition(ReadableDSDLFile):
         else:
             raise FileNameFormatError("Invalid file name", path=self._file_path)
 
+        def parse_decimal(text: str) -> int:
+            # int() alone is too lenient here: it accepts signs, underscores, surrounding whitespace,
+            # and non-ASCII digits, none of which are valid in the numeric components of a file name.
+            if not text.isascii() or not text.isdigit():
+                raise ValueError(text)
+            return int(text)
+
         # Parsing the fixed port ID, if specified; None if not
         if str_fixed_port_id is not None:
             try:
-                self._fixed_port_id: int | None = int(str_fixed_port_id)
+                self._fixed_port_id: int | None = parse_decimal(str_fixed_port_id)
             except ValueError:
                 raise FileNameFormatError(
                     "Not a valid fixed port-ID: %s. "
@@ -209,7 +216,7 @@ class DSDLDefinition(ReadableDSDLFile):
 
         # Parsing the version numbers
         try:
-            self._version = Version(major=int(str_major_version), minor=int(str_minor_version))
+            self._version = Version(major=parse_decimal(str_major_version), minor=parse_decimal(str_minor_version))
         except ValueError:
             raise FileNameFormatError("Could not parse the version numbers", path=self._file_path) from None
 
